@@ -1,7 +1,7 @@
 """Table rules (T): every cell of the ISO tables the repository keeps as code,
 materialised by folding the lookup functions over their whole finite domain
 and compared with the independently derived reference."""
-from . import fold, reference as ref
+from . import fold, peval, reference as ref
 from .fold import TOP, mk_enum, mk_int, mk_bool, to_py
 
 VERSION = "version::Version"
@@ -22,6 +22,12 @@ def L(l):
 
 def M(m):
     return mk_enum(MODE, m)
+
+
+def mkfolder(f, max_steps=1000000):
+    """lookup functions are folded by the partial evaluator (loops over constant tables, fn-pointer tables and
+    struct constants fold too); a function it cannot fold yields 'top' and the rule abstains"""
+    return peval.PEval(f, max_steps=max_steps)
 
 
 def anchor_fn(ctx, rid, f, path, inputs=None, output=None):
@@ -84,7 +90,7 @@ def c02_t1(ctx, f):
     fn = anchor_fn(ctx, rid, f, "hardcode::ecc_to_groups", [ECL, VERSION], "[(usize, usize); 2]")
     if not fn:
         return {}
-    F = fold.Folder(f)
+    F = mkfolder(f)
     out = {}
     for l in ref.LEVELS:
         for v in range(1, 41):
@@ -111,7 +117,7 @@ def c02_t2(ctx, f):
     ctx.rule(rid, "data codeword counts = sum of block sizes; data_bits = 8x")
     fn = anchor_fn(ctx, rid, f, "hardcode::data_codewords", [VERSION, ECL], "usize")
     fb = anchor_fn(ctx, rid, f, "hardcode::data_bits", [VERSION, ECL], "usize")
-    F = fold.Folder(f)
+    F = mkfolder(f)
     out = {}
     for l in ref.LEVELS:
         for v in range(1, 41):
@@ -137,7 +143,7 @@ def c02_t3(ctx, f, layouts=None, datacw=None, degrees=None):
     ctx.rule(rid, "total codewords / remainder bits per version; total = data + ec*blocks (repo tables agree)")
     fm = anchor_fn(ctx, rid, f, "version::Version::max_bytes", [VERSION], "usize")
     fr = anchor_fn(ctx, rid, f, "version::Version::missing_bits", [VERSION], "usize")
-    F = fold.Folder(f)
+    F = mkfolder(f)
     totals = {}
     for v in range(1, 41):
         if fm:
@@ -175,7 +181,7 @@ def c02_t4_c07_t2(ctx, f, rid_deg="C02.T4", rid_coef="C07.T2"):
     fn = anchor_fn(ctx, rid_deg, f, "hardcode::get_polynomial", [VERSION, ECL], "&'static [u8]")
     if not fn:
         return {}
-    F = fold.Folder(f)
+    F = mkfolder(f)
     degs = {}
     distinct = {}
     for l in ref.LEVELS:
@@ -240,7 +246,7 @@ def c03_t1(ctx, f):
     rid = "C03.T1"
     ctx.rule(rid, "side = 17+4v; size->version inverse on the 40 sizes; backing array holds 177x177")
     fs = anchor_fn(ctx, rid, f, "version::Version::size", [VERSION], "usize")
-    F = fold.Folder(f)
+    F = mkfolder(f)
     for v in range(1, 41):
         if fs:
             r = run(F, fs, {VERSION: V(v)})
@@ -250,14 +256,13 @@ def c03_t1(ctx, f):
     fn = f.fn("version::Version::from_n")
     if fn is not None:  # only compiled with svg/image/debug_assertions
         ctx.analysed(fn)
-        rs = F.run(fn.path, [("sym",)], sym=("usize", 0, USIZE_MAX))
         for v in range(1, 41):
             n = ref.side(v)
-            leaf = [r for r in rs if r.lo <= n <= r.hi]
-            got = retval(leaf[0]) if leaf else None
+            r = F.run(fn.path, [mk_int("usize", n)])
+            got = retval(r)
             ctx.check(rid, got == "V%02d" % v, "%s/%d" % (fn.path, n), where_fn(fn), fn.path, "n=%d" % n,
                       "size-to-version map is not the inverse of 17+4v", expected="V%02d" % v,
-                      found=describe(leaf[0]) if leaf else None, sample="from_n(%d) = %s" % (n, got))
+                      found=describe(r), sample="from_n(%d) = %s" % (n, got))
     # backing array
     qa = f.adts.get("qr::QRCode")
     if not qa:
@@ -281,7 +286,7 @@ def c03_t2(ctx, f):
     fn = anchor_fn(ctx, rid, f, "version::Version::alignment_patterns_grid", [VERSION], "&'static [usize]")
     if not fn:
         return
-    F = fold.Folder(f)
+    F = mkfolder(f)
     for v in range(2, 41):  # the V01 row is never read (drawing returns first, see C03.T3)
         r = run(F, fn, {VERSION: V(v)})
         got = retval(r)
@@ -293,7 +298,7 @@ def c03_t2(ctx, f):
 def c03_t3(ctx, f):
     rid = "C03.T3"
     ctx.rule(rid, "alignment drawing skipped exactly for V01; version info exactly for V01..V06")
-    F = fold.Folder(f)
+    F = mkfolder(f)
     for path, first_drawn in (("default::create_matrix_alignments", 2), ("default::create_matrix_version_info", 7)):
         fn = anchor_fn(ctx, rid, f, path, ["&mut qr::QRCode", VERSION], "()")
         if not fn:
@@ -335,7 +340,7 @@ def c04_t1(ctx, f):
         ctx.check(rid, d == i and name == exp_name and len(vs) == 8, "%s/discr/%s" % (MASK, name), "src/datamasking.rs", MASK,
                   name, "mask variant does not carry its ISO pattern number", expected=(exp_name, i), found=(name, d),
                   sample="Mask::%s = %s" % (name, d))
-    F = fold.Folder(f)
+    F = mkfolder(f)
     for l in ref.LEVELS:
         for k, (name, d) in enumerate(vs[:8]):
             r = run(F, fn, {ECL: L(l), MASK: mk_enum(MASK, name)})
@@ -352,7 +357,7 @@ def c04_t2(ctx, f):
     fn = anchor_fn(ctx, rid, f, "version::Version::information", [VERSION], "u32")
     if not fn:
         return
-    F = fold.Folder(f)
+    F = mkfolder(f)
     for v in range(7, 41):  # words below V07 are never read (C03.T3)
         r = run(F, fn, {VERSION: V(v)})
         exp = ref.version_word(v)
@@ -384,7 +389,7 @@ def c05_t1(ctx, f):
     fn = anchor_fn(ctx, rid, f, "version::Version::get", [MODE, ECL, "usize"], "std::option::Option<version::Version>")
     if not fn:
         return
-    F = fold.Folder(f, max_steps=2000000)
+    F = mkfolder(f, 4000000)
     leaves_total = 0
     for mode in ref.MODES:
         for l in ref.LEVELS:
@@ -466,7 +471,7 @@ def c06_t1(ctx, f):
     fn = anchor_fn(ctx, rid, f, "hardcode::cci_bits", [VERSION, MODE], "usize")
     if not fn:
         return
-    F = fold.Folder(f)
+    F = mkfolder(f)
     for mode in ref.MODES:
         for v in range(1, 41):
             r = run(F, fn, {VERSION: V(v), MODE: M(mode)})
@@ -678,7 +683,7 @@ def c08_dispatch(ctx, f):
     vs = mask_variants(ctx, rid, f)
     if not fn or not vs:
         return {}
-    F = fold.Folder(f)
+    F = fold.Folder(f)  # the qr argument is unknown here: sweeps are backed out of as opaque calls
     table = {}
     for name, d in vs:
         r = run(F, fn, {MASK: mk_enum(MASK, name), "&mut qr::QRCode": TOP})
@@ -762,7 +767,7 @@ def c09_t1(ctx, f):
     fn = anchor_fn(ctx, rid, f, "encode::is_qr_alphanumeric", ["u8"], "bool")
     if not fn:
         return
-    F = fold.Folder(f)
+    F = mkfolder(f)
     for c in range(256):
         r = F.run(fn.path, [mk_int("u8", c)])
         exp = chr(c) in ref.ALNUM
@@ -777,7 +782,7 @@ def c09_t2(ctx, f):
     ctx.rule(rid, "alphanumeric/digit value tables on their alphabets (45 + 10)")
     fa = anchor_fn(ctx, rid, f, "encode::ascii_to_alphanumeric", ["u8"], "usize")
     fd = anchor_fn(ctx, rid, f, "encode::ascii_to_digit", ["u8"], "usize")
-    F = fold.Folder(f)
+    F = mkfolder(f)
     if fa:
         for i, ch in enumerate(ref.ALNUM):
             r = F.run(fa.path, [mk_int("u8", ord(ch))])
@@ -833,7 +838,7 @@ def c15_t1(ctx, f):
     ftog = anchor_fn(ctx, rid, f, "module::Module::toggle", ["&mut module::Module"], "()")
     if not (fnew and fty and fval and fset and ftog):
         return
-    F = fold.Folder(f)
+    F = mkfolder(f)
 
     def ty_of(m):
         return retval(F.run(fty.path, [m]))
@@ -905,7 +910,7 @@ def c15_t2(ctx, f, totals=None):
     if not fm or not fr:
         ctx.anchor_missing(rid, "version::Version::max_bytes/missing_bits")
         return
-    F = fold.Folder(f)
+    F = mkfolder(f)
     for v in range(1, 41):
         a = retval(F.run(fm.path, [V(v)]))
         b = retval(F.run(fr.path, [V(v)]))
